@@ -38,8 +38,9 @@ where
                 }
                 continue;
             }
-        } else {
-            // This item was already None.
+        } else if !renumber {
+            // This item was already None. If we are not renumbering, then it stays in place;
+            // otherwise the gap is closed.
             new_ws.push(None);
         }
     }
